@@ -66,6 +66,61 @@ pub fn gen_doc(rng: &mut Rng, max_items: usize) -> (Vec<Value>, Vec<u8>, Vec<(us
     (items, html, ranges)
 }
 
+/// Documents with SVG / MathML islands: integration points with HTML inside, names the tag-name hash
+/// cannot represent, CDATA sections, self-closing syntax; everything explicitly closed.
+pub fn gen_foreign_items(rng: &mut Rng, max_nodes: usize) -> (Vec<Value>, Vec<u8>, Vec<(usize, usize)>) {
+    struct G { items: Vec<Value>, html: Vec<u8>, ranges: Vec<(usize, usize)>, budget: usize, last_text: bool }
+    fn push(g: &mut G, item: Value, bytes: &[u8]) {
+        let s = g.html.len();
+        g.html.extend_from_slice(bytes);
+        g.ranges.push((s, g.html.len()));
+        g.items.push(item);
+    }
+    fn node(rng: &mut Rng, g: &mut G, ns: u8, depth: usize) {
+        if g.budget == 0 { return; }
+        g.budget -= 1;
+        let r = rng.below(12);
+        if r < 2 {
+            if !g.last_text { push(g, json!({"k":"tx"}), rng.pick(&["t", "1 ", "x&amp;y", "é"]).as_bytes()); g.last_text = true; }
+            return;
+        }
+        if r == 2 { push(g, json!({"k":"cm"}), b"<!--c-->"); g.last_text = false; return; }
+        if r == 3 && ns != 0 {
+            push(g, json!({"k":"raw"}), b"<![CDATA[");
+            push(g, json!({"k":"tx"}), rng.pick(&["x<y", "<b>", "]] >"]).as_bytes());
+            push(g, json!({"k":"raw"}), b"]]>");
+            g.last_text = false;
+            return;
+        }
+        let html_names: &[&str] = &["div", "b", "span", "x-y", "a", "p", "i"];
+        let svg_names: &[&str] = &["g", "path", "x-unit", "text", "a", "title", "desc", "foreignObject"];
+        let math_names: &[&str] = &["mrow", "mi", "mo", "mn", "mtext", "annotation-xml", "x-y", "semantics"];
+        let (name, child_ns): (&str, u8) = match ns {
+            0 => if depth < 3 && rng.chance(1, 3) { if rng.chance(1, 2) { ("svg", 1) } else { ("math", 2) } } else { (*rng.pick(html_names), 0) },
+            1 => { let n = *rng.pick(svg_names); (n, if matches!(n, "title" | "desc" | "foreignObject") { 0 } else { 1 }) }
+            _ => { let n = *rng.pick(math_names); (n, if matches!(n, "mi" | "mo" | "mn" | "mtext") { 0 } else { 2 }) }
+        };
+        let mut attrs = String::new();
+        let mut child_ns = child_ns;
+        if name == "annotation-xml" && rng.chance(2, 3) { attrs.push_str(" encoding=\"text/html\""); child_ns = 0; }
+        let mut alist: Vec<Value> = Vec::new();
+        if attrs.contains("encoding") { alist.push(json!([b("encoding"), b("text/html")])); }
+        if rng.chance(1, 4) { attrs.push_str(" class=\"p\""); alist.push(json!([b("class"), b("p")])); }
+        // breakout tags (p, b, div, span, i ...) would leave foreign content: only used in HTML context here
+        let sc = ns != 0 && rng.chance(1, 6);
+        let tag = format!("<{name}{attrs}{}>", if sc { "/" } else { "" });
+        push(g, json!({"k":"st","n":b(name),"attrs":alist,"sc":sc,"ns": match ns { 0 => "html", 1 => "svg", _ => "mathml" }}), tag.as_bytes());
+        g.last_text = false;
+        if sc { return; }
+        for _ in 0..rng.below(4) { node(rng, g, child_ns, depth + 1); }
+        push(g, json!({"k":"et","n":b(name)}), format!("</{name}>").as_bytes());
+        g.last_text = false;
+    }
+    let mut g = G { items: vec![], html: vec![], ranges: vec![], budget: 2 + rng.below(max_nodes), last_text: false };
+    while g.budget > 0 { node(rng, &mut g, 0, 0); }
+    (g.items, g.html, g.ranges)
+}
+
 fn gen_simple_selector(rng: &mut Rng) -> (Value, String) {
     // simple grammar with a good hit rate (the full grammar is C04's business)
     let mut comps: Vec<(String, Value)> = Vec::new();
@@ -74,7 +129,7 @@ fn gen_simple_selector(rng: &mut Rng) -> (Value, String) {
         let comb = if i == 0 { "" } else if rng.chance(1, 2) { ">" } else { " " };
         let (txt, comp) = match rng.below(6) {
             0 => ("*".to_string(), json!([{"t":"univ"}])),
-            1 | 2 | 3 => { let nm = *rng.pick(NAMES); (nm.to_string(), json!([{"t":"type","n":b(nm)}])) }
+            1 | 2 | 3 => { let nm = if rng.chance(1, 4) { *rng.pick(&["mi", "x-y", "g", "title", "foreignobject", "mtext", "annotation-xml", "x-unit", "i", "text"]) } else { *rng.pick(NAMES) }; (nm.to_string(), json!([{"t":"type","n":b(nm)}])) }
             4 => { let c = *rng.pick(&["p", "q"]); (format!(".{c}"), json!([{"t":"class","v":b(c)}])) }
             _ => { let nm = *rng.pick(NAMES); (format!("{nm}[x]"), json!([{"t":"type","n":b(nm)},{"t":"attr","n":b("x"),"op":"","v":[],"cs":""}])) }
         };
@@ -117,7 +172,7 @@ pub fn job_c05(out_dir: &str, tier: &str, seed: u64) {
     let ncases = if quick { 4000 } else { 120000 };
     let mut n = 0usize;
     for _ in 0..ncases {
-        let (mut items, html, ranges) = gen_doc(&mut rng, 12);
+        let (mut items, html, ranges) = if rng.chance(1, 3) { gen_foreign_items(&mut rng, 12) } else { gen_doc(&mut rng, 12) };
         // namespaces as reported by lol-html (for self-closing foreign elements only)
         let ptl = driver::run(&json!({"elem":[{"sel":"*","element":[]}],"strict":false}), &html, &[], &RunOpts::default());
         for e in &ptl {
